@@ -48,7 +48,7 @@ static _Bool title_eq(const char *a, const char *b, _Bool nocase)
 }
 #define FOR_SEC_FLAGS(stmt) do { unsigned g_ = nondet_uint(); \
 	if (g_ == 0) { k_flags = 0; stmt; } else if (g_ == 1) { k_flags = CFGF_DEFINIT | CFGF_KEYSTRVAL; stmt; } \
-	else if (g_ == 2) { k_flags = CFGF_MULTI; stmt; } else if (g_ == 3) { k_flags = CFGF_MULTI | CFGF_TITLE; stmt; } \
+	else if (g_ == 2) { k_flags = CFGF_MULTI | CFGF_NODEFAULT; stmt; } else if (g_ == 3) { k_flags = CFGF_MULTI | CFGF_TITLE; stmt; } \
 	else if (g_ == 4) { k_flags = CFGF_MULTI | CFGF_TITLE | CFGF_NO_TITLE_DUPES | CFGF_DEFINIT; stmt; } \
 	else if (g_ == 5) { k_flags = CFGF_TITLE; stmt; } else { k_flags = CFGF_MULTI | CFGF_TITLE | CFGF_NOCASE | CFGF_KEYSTRVAL; stmt; } } while (0)
 #define FOR_CFG_FLAGS(stmt) do { if (nondet_bool()) { k_cfgflags = 0; stmt; } else { k_cfgflags = CFGF_NOCASE | CFGF_IGNORE_UNKNOWN | CFGF_COMMENTS; stmt; } } while (0)
@@ -106,6 +106,7 @@ static void b_setopt_sec(unsigned n)
 		}
 		CHECK("C01", g_initdef_calls == ((k_flags & CFGF_DEFINIT) ? 0 : 1) && (g_initdef_calls == 0 || g_initdef_arg == r->section), "defaults are materialised per instance (once) unless already done");
 		CHECK("C01", o.flags & CFGF_MODIFIED, "opening a section marks the option modified");
+		CHECK("C16,C01", o.flags == (k_flags | CFGF_MODIFIED), "opening an instance leaves the declaration flags of the section option alone: they are shared by every later instance (defaults are materialised for each of them)");
 	} else {
 		/* allocation failure */
 		CHECK("C18", o.nvalues == n || o.nvalues == n + 1, "allocation failure: at most the one new slot was added");
